@@ -117,6 +117,19 @@ theorem C20_zero_test_rows (info : FieldInfo) (lit : String) (hl : info.tf.zeroV
     subst hz
     simp [scIsZero]
 
+/-- the float32 row: `float64(x) == 0` holds exactly for the two float32 zeros (depends on the `bv_decide` axiom of
+`F.widen_zero`, declared in the evidence) -/
+theorem C20_zero_test_f32 (info : FieldInfo) (hr : info.rep = .f32) (hto : info.tf.valueCastToType = "float64")
+    (hl : info.tf.zeroValue = "0") : ZeroTestFaithful info := by
+  intro s c null hc hz hrep
+  rw [hl] at hz
+  simp only [FieldInfo.castTo, hto, show repOfGoType "float64" = some GoRep.f64 from by decide] at hc
+  rw [hr] at hc hrep
+  cases s <;> simp [C19.HasRep] at hrep
+  simp only [conv, Option.some.injEq] at hc; subst hc
+  simp [eqLiteral] at hz; subst hz
+  simp [scIsZero, F.widen_zero]
+
 /-- C20 for messages of scalars held by value (`_partial`: see the header). For every such field the attribute is
 null exactly when the field holds its zero value; fields without a zero literal (time, duration) are never null. -/
 theorem C20_plain_partial (m : Msg) (obj : GoVal) (atys : Option (List (String × TfTy)))
